@@ -97,7 +97,7 @@ def run(ctx):
             root = os.path.join(tree, '.build', 'apparmor.d')
             defs, refs, tun = scan(root)
             drop = []
-            for p in glob.glob(os.path.join(tree, '.build', 'systemd', '**', '*.conf'), recursive=True):
+            for p in [q for q in glob.glob(os.path.join(tree, '.build', 'systemd', '**', '*'), recursive=True) if os.path.isfile(q)]:
                 for l in open(p, encoding='utf-8', errors='replace'):
                     m = re.match(r'^\s*AppArmorProfile=(\S+)', l)
                     if m:
